@@ -14,6 +14,12 @@ def parseTok (j : Json) : Except String Tok := do
   match j.getObjVal? "p" with
   | .ok v => return .par (← v.getStr?).toList
   | .error _ =>
+  match j.getObjVal? "d" with
+  | .ok v => return .dict (← v.getStr?).toList
+  | .error _ =>
+  match j.getObjVal? "n" with
+  | .ok v => return .num (← v.getStr?).toList
+  | .error _ =>
   match j.getObjVal? "r" with
   | .ok _ => return .ref (← getCharsList j "r") (← optChars j "m")
   | .error _ => return .suf (← getCharsList j "s") (← optChars j "m")
@@ -48,10 +54,14 @@ def parseTemplate (j : Json) : Except String Template := do
       return Exec.mk (← getChars e "target") (← parseEnv (← e.getObjVal? "args"))
     return ⟨name, idx, params, .workflow steps execute⟩
   else
-    return ⟨name, idx, params, .component (← parseVal (← j.getObjVal? "args"))⟩
+    return ⟨name, idx, params, .component (← parseVal (← j.getObjVal? "args")) (← optChars j "env")⟩
 
 def parseNs (j : Json) : Except String Namespace := do
-  return ⟨← (← getArr j "templates").mapM parseTemplate, ← getChars j "entry", ← parseEnv (← j.getObjVal? "entryArgs")⟩
+  let uvars ← match j.getObjVal? "userVars" with
+    | .ok Json.null => pure []
+    | .ok v => parseEnv v
+    | .error _ => pure []
+  return ⟨← (← getArr j "templates").mapM parseTemplate, ← getChars j "entry", ← parseEnv (← j.getObjVal? "entryArgs"), uvars⟩
 
 def jloc (l : Loc) : Json := jarr (l.map jchars)
 
@@ -68,10 +78,17 @@ def jtok : Tok → Json
   | .par p => jobj [("p", jchars p)]
   | .ref l m => jobj [("r", jloc l), ("m", jopt jchars m)]
   | .suf l m => jobj [("s", jloc l), ("m", jopt jchars m)]
+  | .dict d => jobj [("d", jchars d)]
+  | .num t => jobj [("n", jchars t)]
+
+def jenv : EnvVal → Json
+  | .unset => jobj [("k", jstr "unset")]
+  | .empty => jobj [("k", jstr "none")]
+  | .dict d => jobj [("k", jstr "dict"), ("d", jchars d)]
 
 def jcomp (c : Comp) : Json :=
   jobj [("loc", jloc c.loc), ("name", jchars c.name), ("args", jarr (c.args.map jotok)),
-        ("refs", jarr (c.refs.map jotok)), ("producers", jarr (c.producers.map jloc))]
+        ("refs", jarr (c.refs.map jotok)), ("producers", jarr (c.producers.map jloc)), ("env", jenv c.env)]
 
 def oldBehaviour (ns : Namespace) : Json :=
   match ns.find ns.entry with
@@ -82,7 +99,7 @@ def oldBehaviour (ns : Namespace) : Json :=
     let names := assignNamesOld [] steps
     let locs := acc.insts.map (·.loc)
     let refs := acc.insts.flatMap fun i =>
-      (fullRefs (merge (substT (fun p => i.params.lookup p) i.arguments)) ++ i.params.flatMap fun a => fullRefs a.2).map (·.1)
+      (fullRefs (merge (substV (fun p => i.params.lookup p) i.arguments)) ++ i.params.flatMap fun a => fullRefs a.2).map (·.1)
     jobj [("names", jarr (names.map jchars)),
           ("names_distinct", jbool (names.eraseDups.length == names.length)),
           ("names_valid", jbool (names.all validName)),
@@ -98,7 +115,8 @@ def handle (j : Json) : Except String Json := do
       | .ok comps => [("ok", jarr (comps.map jcomp))]
       | .invalid ph errs => [("invalid", jarr (errs.map jerr)), ("phase", jnat ph)]
       | .outOfFuel => [("out_of_fuel", jbool true)]
-    return jobj (res ++ [("spec", jarr (spec.map fun s => jobj [("loc", jloc s.loc), ("args", jarr (s.args.map jtok))])),
+    return jobj (res ++ [("spec", jarr (spec.map fun s => jobj [("loc", jloc s.loc), ("args", jarr (s.args.map jtok)),
+                                     ("env", jopt (fun v => jarr (v.map jtok)) s.env)])),
                          ("edges", jarr ((specEdges spec).map fun e => jarr [jloc e.1, jloc e.2])),
                          ("old", oldBehaviour ns)])
   | "roman" =>
